@@ -171,6 +171,9 @@ func newClampReader(b []byte, limit, limit16 uint64, varint64 map[int]bool) *cla
 	return &clampReader{buf: append([]byte(nil), b...), limit: limit, limit16: limit16, varint64: varint64, lastFF: -1, found: -1}
 }
 
+// Len: what a bytes.Reader over the same input would answer (see eofGuardReader.Len).
+func (c *clampReader) Len() int { return len(c.buf) - c.pos }
+
 func (c *clampReader) Read(p []byte) (int, error) {
 	if len(p) == 0 {
 		return 0, nil
